@@ -64,7 +64,15 @@ def tricky_text():
 
 
 def field_values():
-    leaves = st.one_of(st.none(), st.booleans(), st.integers(-(2**53), 2**53), V.finite_floats(), tricky_text())
+    leaves = st.one_of(
+        st.none(),
+        st.booleans(),
+        st.integers(-(2**53), 2**53),
+        V.finite_floats(),
+        tricky_text(),
+        # valid for Python's json (a foreign producer may write them), beyond what eliot's own encoder emits
+        st.sampled_from([2**64, 2**70 + 1, -(2**65), float("nan"), float("inf"), float("-inf")]),
+    )
     return st.recursive(leaves, lambda ch: st.one_of(st.lists(ch, max_size=3), st.dictionaries(V.keys(), ch, max_size=3)), max_leaves=6)
 
 
@@ -199,7 +207,9 @@ def check_pretty(m):
         import pprint
 
         plain = pprint.pformat(value, width=40)
-        if "\\n" not in plain and "\\t" not in plain:
+        if "nan" in plain or "inf" in plain:
+            pass  # non-finite floats have no Python literal: only presence and order of the field are checked
+        elif "\\n" not in plain and "\\t" not in plain:
             require(ok_indent, "pretty-indent", lambda: "block of %r not indented with %r: %r" % (k, indent, block))
             try:
                 back = ast.literal_eval(rendered)
@@ -287,10 +297,21 @@ def run_cli(data, argv):
     return out.getvalue()
 
 
+def encode_line(m):
+    """One log line for message m: eliot's encoder, or Python's json for values only a foreign producer writes."""
+    text = json.dumps(m)
+    if "NaN" in text or "Infinity" in text:
+        return text.encode("utf-8")
+    try:
+        return _dumps_bytes(m, default=json_default)
+    except TypeError:
+        return text.encode("utf-8")
+
+
 def line_bytes(spec):
     kind = spec[0]
     if kind == "msg":
-        return _dumps_bytes(spec[1], default=json_default)
+        return encode_line(spec[1])
     if kind == "bytes":
         return bytes(spec[1]).replace(b"\n", b" ")
     if kind == "text":
@@ -303,7 +324,7 @@ def line_bytes(spec):
             m.pop(REQUIRED[k % 3], None)
         if all(k in m for k in REQUIRED):
             m.pop("timestamp")
-        return _dumps_bytes(m, default=json_default)
+        return encode_line(m)
     raise ValueError(kind)
 
 
@@ -536,6 +557,10 @@ EXPRS = [
     ("''", lambda J: ""),
     ("(datetime.utcfromtimestamp(J['timestamp']) + timedelta(seconds=1)).replace(microsecond=0)", lambda J: (datetime.datetime.utcfromtimestamp(J["timestamp"]) + datetime.timedelta(seconds=1)).replace(microsecond=0).isoformat()),
     ("SKIP if J['task_level'] == [1] else J['task_level']", lambda J: SKIPPED if J["task_level"] == [1] else J["task_level"]),
+    # expressions that change the message in place and return it (redacting / annotating a log)
+    ("J.update(host='web1') or J", lambda J: dict(J, host="web1")),
+    ("[J.pop('task_uuid', None), J][1]", lambda J: dict((k, v) for k, v in J.items() if k != "task_uuid")),
+    ("J if J.setdefault('seen', True) else SKIP", lambda J: dict(J, seen=J.get("seen", True)) if J.get("seen", True) else SKIPPED),
 ]
 SKIPPED = object()
 
@@ -557,7 +582,7 @@ def check_filter(case):
         if not isinstance(m["n"], int) or isinstance(m["n"], bool):
             m["n"] = i
         msgs.append(m)
-    raws = [_dumps_bytes(m, default=json_default) for m in msgs]
+    raws = [encode_line(m) for m in msgs]
     loaded = [json.loads(r) for r in raws]
     expected = []
     for J in loaded:
